@@ -3375,3 +3375,46 @@ Proof.
     [reflexivity | reflexivity | discriminate |].
   vm_compute in E. discriminate.
 Qed.
+
+(* ------------------------------------------------------------------------- *)
+(* The heaps of the type N inside the extended heap language                   *)
+
+Definition xflat (v : xval) : Prop := match v with XStruct _ | XArr _ => False | _ => True end.
+
+Lemma xbyval_cyclic_flat_struct :
+  forall H self l, Forall xflat l -> xbyval_cyclic H self false (XStruct l) = false.
+Proof.
+  intros H self l F. induction F as [|x l Fx Fl IH].
+  - reflexivity.
+  - simpl in *. rewrite IH. destruct x; simpl in *; try reflexivity; contradiction.
+Qed.
+
+Lemma xembed_ref_flat : forall h r, xflat (xembed_ref h r).
+Proof.
+  intros h [a|]; simpl; [|exact I].
+  destruct (hget h a) as [n|]; [destruct (container_empty n)|]; exact I.
+Qed.
+
+Lemma xembed_ref_not_cyclic :
+  forall H self h r, xbyval_cyclic H self (is_xbyval (xembed_ref h r)) (xembed_ref h r) = false.
+Proof.
+  intros H self h [a|]; simpl; [|reflexivity].
+  destruct (hget h a) as [n|]; [destruct (container_empty n)|]; reflexivity.
+Qed.
+
+(* every heap of the type N, written in the extended language, lies in the supported fragment *)
+Lemma xembed_supported : forall h, x_supported (xembed h) = true.
+Proof.
+  intro h. unfold x_supported. apply forallb_forall. intros [a c] Hin.
+  unfold xembed in Hin. apply in_map_iff in Hin. destruct Hin as [[a' n] [E _]].
+  simpl in E. injection E as Ea Ec. subst a c. simpl.
+  unfold xembed_node. destruct (nkind n) as [v| |]; unfold xcell_supported.
+  - rewrite xbyval_cyclic_flat_struct; [reflexivity|].
+    constructor; [exact I|].
+    apply Forall_forall. intros x Hx. apply in_map_iff in Hx. destruct Hx as [lr [Ex _]]. subst x.
+    apply xembed_ref_flat.
+  - apply forallb_forall. intros e He. apply in_map_iff in He. destruct He as [lr [Ee _]]. subst e.
+    rewrite xembed_ref_not_cyclic. reflexivity.
+  - apply forallb_forall. intros [k e] He. apply in_map_iff in He. destruct He as [lr [Ee _]].
+    injection Ee as _ Ee. subst e. cbn [snd]. rewrite xembed_ref_not_cyclic. reflexivity.
+Qed.
